@@ -207,6 +207,8 @@ def validate_sessions(pid, name, sessions, chunk=None, timeout=1500, workers=Non
     st.notes[name] = {"sessions": n, "accepted": len(acc), "out_of_model": st.skipped,
                       "rejected": len(rejected), "drive_wall_s": round(t_drive, 1),
                       "tlc_wall_s": round(r["wall"], 1), "trace_states": r["distinct"], "chunk": chunk}
+    if len(acc) and os.environ.get("VERIF_NEG", "1") == "1" and name != "replay":
+        st.notes[name]["negative_controls_rejected"] = negative_controls(pid, name, tp, acc, "sessions")
     if len(acc):
         want = next(i for i in ids if i in acc)
         with open(tp) as f:
@@ -218,6 +220,70 @@ def validate_sessions(pid, name, sessions, chunk=None, timeout=1500, workers=Non
                                                      "response": brief_resp(c["resp"])} for c in rec["cmds"]][:14]})
                     break
     return st
+
+
+def negative_controls(pid, name, tp, accepted_ids, kind, limit=12):
+    """the binding binds: corrupt recorded traces that were accepted and require that every corrupted
+    trace is rejected.  Returns the number of corrupted traces rejected."""
+    import copy
+    recs = []
+    with open(tp) as f:
+        for line in f:
+            rec = json.loads(line)
+            if rec["id"] in accepted_ids:
+                recs.append(rec)
+            if len(recs) >= limit:
+                break
+    bad = []
+    for i, rec in enumerate(recs):
+        r2 = copy.deepcopy(rec)
+        r2["id"] = "neg-%d-%s" % (i, rec["id"])
+        if kind == "sessions":
+            cmds = [c for c in r2["cmds"] if any(it.get("k") == "out" for it in c["resp"])]
+            if i % 3 == 0 and cmds:
+                it = next(it for it in cmds[-1]["resp"] if it.get("k") == "out")
+                it["s"] = it["s"][:-1] + [it["s"][-1] + 1] if i % 2 else [63] + it["s"]     # a printed character
+            elif i % 3 == 1:
+                r2["cmds"][-1]["probe"]["vars"].append({"l": "Z", "id": "ZZ", "sfx": "%", "sub": [],
+                                                         "v": {"t": "I", "n": 77, "e": 0, "s": [], "x": True}})   # a stray variable
+            else:
+                withresp = [c for c in r2["cmds"] if c["resp"]]
+                if not withresp:
+                    continue
+                withresp[0]["resp"] = []                                             # a lost response
+        else:
+            evs = r2["ev"]
+            ex = [j for j, e in enumerate(evs) if e["call"] == "execute" and e["ret"] != "Inkey"]
+            en = [j for j, e in enumerate(evs) if e["call"] == "enter" and e["cls"] == "direct"]
+            if i % 2 == 0 and ex:
+                evs[ex[len(ex) // 2]]["post"]["state"] = "Inkey"                     # an impossible state
+            elif en:
+                del evs[en[0]]                                                        # a lost call
+            else:
+                continue
+        bad.append(r2)
+    if not bad:
+        return 0
+    d = common.outdir(pid)
+    np_ = os.path.join(d, name + ".neg.ndjson")
+    with open(np_, "w") as f:
+        for r2 in bad:
+            f.write(json.dumps(r2) + "\n")
+    module, cfg = ("TraceMachine.tla", "TraceMachine.cfg") if kind == "sessions" else ("TraceShell.tla", "TraceShell.cfg")
+    r = common.run_tlc(pid, module, os.path.join(SPEC, cfg), timeout=900, workers=4,
+                       env_extra={"TRACE": np_, "CHUNK": "1"}, java_opts="-Xss1g", tag=name + "_neg")
+    if not r["ok"]:
+        raise ToolError("TLC failed on the negative controls of %s: %s" % (name, r["error"] or r["violated"]))
+    acc = set()
+    with open(r["cases"]) as f:
+        for line in f:
+            dct = json.loads(line)
+            if dct.get("T") == "ACCEPT":
+                acc.add(dct["id"])
+    if acc:
+        raise ToolError("negative control failed: corrupted traces were accepted by the specification: %s (see %s)"
+                        % (sorted(acc)[:3], np_))
+    return len(bad)
 
 
 def brief_resp(resp):
@@ -795,7 +861,98 @@ def subprocess_text(cmd):
     return _RENDER_CACHE[key]
 
 
-CHECKS = {"C16": check_C16, "C05": check_C05, "C19": check_C19, "C14": check_C14, "C18": check_C18, "C02": check_C02, "C07": check_C07, "C20": check_C20, "C15": check_C15, "C13": check_C13, "C12": check_C12, "C08": check_C08, "C01": check_C01, "C04": check_C04, "C06": check_C06}
+def shell_stage(pid, name, scripts, chunk=None, timeout=3000):
+    """run the scripts on the real Runtime (bvh shell) and validate the recorded call traces against RuntimeShell"""
+    st = Stage()
+    d = common.outdir(pid)
+    sp = os.path.join(d, name + ".scripts.ndjson")
+    tp = os.path.join(d, name + ".shelltrace.ndjson")
+    with open(sp, "w") as f:
+        for s_ in scripts:
+            f.write(json.dumps(s_) + "\n")
+    t0 = time.time()
+    common.run_bvh(["shell", sp, tp], timeout=timeout)
+    t_drive = time.time() - t0
+    n = len(scripts)
+    if chunk is None:
+        chunk = max(1, min(40, n // (common.TLC_WORKERS * 4) + 1))
+    r = common.run_tlc(pid, "TraceShell.tla", os.path.join(SPEC, "TraceShell.cfg"), timeout=timeout,
+                       env_extra={"TRACE": tp, "CHUNK": str(chunk)}, java_opts="-Xss512m", tag=name)
+    if r["violated"]:
+        raise ToolError("an invariant of RuntimeShell failed during trace validation (%s): %s; see %s"
+                        % (name, r["violated"], r["out"]))
+    if not r["ok"]:
+        raise ToolError("TLC failed validating %s: %s; see %s" % (name, r["error"], r["out"]))
+    acc, stuck = set(), {}
+    with open(r["cases"]) as f:
+        for line in f:
+            dct = json.loads(line)
+            if dct.get("T") == "ACCEPT":
+                acc.add(dct["id"])
+            elif dct.get("T") == "STUCK":
+                stuck.setdefault(dct["id"], dct)
+    byid = {s_["id"]: s_ for s_ in scripts}
+    ncalls = 0
+    with open(tp) as f:
+        for line in f:
+            rec = json.loads(line)
+            ncalls += len(rec["ev"])
+            if rec["id"] in acc:
+                continue
+            info = stuck.get(rec["id"], {})
+            l = info.get("l")
+            evl = rec["ev"][l - 1] if l and l <= len(rec["ev"]) else None
+            if rec["end"] in ("panic", "hang"):
+                why = "the interpreter %s during %s" % ("panicked" if rec["end"] == "panic" else "did not return", rec["ev"][-1].get("info"))
+            else:
+                why = "call trace rejected by RuntimeShell at call %s: %s from %s" % (l, json.dumps(evl), json.dumps(info.get("pre")))
+            st.failures.append({"case": byid[rec["id"]], "why": why, "observed": {"end": rec["end"], "calls": rec["ev"][max(0, (l or 1) - 6):(l or 1)]},
+                                "spec": info})
+    st.evaluations = n
+    st.validated = len(acc)
+    st.states = r["distinct"]
+    st.transitions = r["generated"]
+    st.nontrivial = len(acc)
+    st.notes[name] = {"scripts": n, "api_calls": ncalls, "accepted": len(acc), "rejected": n - len(acc),
+                      "drive_wall_s": round(t_drive, 1), "tlc_wall_s": round(r["wall"], 1)}
+    if acc:
+        st.notes[name]["negative_controls_rejected"] = negative_controls(pid, name, tp, acc, "shell")
+    if scripts:
+        st.samples.append({"script": scripts[0]["id"], "ops": [o.get("text", o["op"])[:60] for o in scripts[0]["ops"][:10]]})
+    return st
+
+
+def check_C03(tier, seed):
+    import gen03
+    t0 = time.time()
+    quick = tier == "quick"
+    st0 = tlc_mc("C03", "RuntimeShell.tla", "RuntimeShell.cfg", timeout=3000)
+    st1 = shell_stage("C03", "menu", gen03.menu_sessions(seed, 400 if quick else 6000, 14))
+    st2 = shell_stage("C03", "short", gen03.short_string_sessions(2 if quick else 3))
+    sess = gen_sessions(seed + 31, 12 if quick else 200, "C03src")
+    import subprocess
+    sp = os.path.join(common.outdir("C03"), "src.sessions.ndjson")
+    with open(sp, "w") as f:
+        for s_ in sess:
+            f.write(json.dumps(s_) + "\n")
+    lines = [l for l in subprocess.run([common.BVH, "render", sp], stdout=subprocess.PIPE, text=True, check=True).stdout.splitlines() if l.strip()]
+    muts = ["".join(map(chr, c["x"])) for c in lex_mutations(seed + 5, 300 if quick else 5000)]
+    st3 = shell_stage("C03", "soup", gen03.soup_sessions(seed, 150 if quick else 3000, lines + muts))
+    return finish("C03", tier, seed, "model_checking", [st0, st1, st2, st3], t0,
+                  rule="(1) TLC checks ProtocolSafe, CacheCoherent and the liveness property Converges (after one interrupt and no "
+                       "further input the prompt is reached, under weak fairness of execute) on RuntimeShell, the "
+                       "implementation-shaped model of the run states and of the terminal's calling protocol; (2) on the code: "
+                       "seeded sequences over a menu of lines, direct statements, replies, interrupts, listing snapshots kept "
+                       "alive across edits, LOAD / RUN / SAVE requests (every run state reached), every string up to the bound "
+                       "over the lexical alphabet entered as a line, byte / token soup up to 4096 bytes and damaged programs run "
+                       "with interrupts and replies; every API call is recorded with its event and a state probe and the call "
+                       "trace must be a behaviour of RuntimeShell: a panic (caught) or a call that does not return within 3 s "
+                       "has no counterpart and is reported with the input history",
+                  assumptions=["the content of lines is opaque to the shell model (classified as long / empty / numbered / bare / "
+                               "direct by the harness); the per-call watchdog is 3 s"])
+
+
+CHECKS = {"C03": check_C03, "C16": check_C16, "C05": check_C05, "C19": check_C19, "C14": check_C14, "C18": check_C18, "C02": check_C02, "C07": check_C07, "C20": check_C20, "C15": check_C15, "C13": check_C13, "C12": check_C12, "C08": check_C08, "C01": check_C01, "C04": check_C04, "C06": check_C06}
 for _p in ("C09", "C10", "C11", "C17"):
     CHECKS[_p] = prog_check(_p)
 
